@@ -245,6 +245,9 @@ func c10RunOn(r *vrt.Run, c c10Case, s *c10Stack) (fs []vrt.Finding) {
 	if c.Conf.DB != "" {
 		variant += "+db-" + c.Conf.DB
 	}
+	if c.Q.Ctx != "" {
+		variant += "+ctx-" + c.Q.Ctx
+	}
 	r.Class(fmt.Sprintf("%s/%s/%s%s/prof-%s%s -> %s", want, reason, c.Q.Proto, ecs, c.Conf.Prof, variant, outcome))
 	r.State(fmt.Sprintf("%s|%s|%s", want, reason, o))
 
@@ -310,6 +313,11 @@ func c10RunOn(r *vrt.Run, c c10Case, s *c10Stack) (fs []vrt.Finding) {
 				c10Desc(c), po, ref)...)
 		}
 	case c10Served:
+		if c.Q.Ctx != "" {
+			// An unblocked request whose context is dead may get nothing, an
+			// error or a response: not judged.
+			break
+		}
 		ref := c10Reference(c.Conf, c.Q)
 		switch {
 		case o.String() == ref.String():
@@ -323,6 +331,9 @@ func c10RunOn(r *vrt.Run, c c10Case, s *c10Stack) (fs []vrt.Finding) {
 				c10Desc(c), o, ref)...)
 		}
 	case c10Either:
+		if c.Q.Ctx != "" {
+			break
+		}
 		ref := c10Reference(c.Conf, c.Q)
 		if !traceless && o.String() != ref.String() {
 			fs = append(fs, vrt.F("access/request-neither-dropped-nor-processed-normally",
@@ -362,6 +373,9 @@ func c10Desc(c c10Case) string {
 	}
 	if q.SNI != "" {
 		ecs += " with TLS server name " + q.SNI
+	}
+	if q.Ctx != "" {
+		ecs += " with context " + q.Ctx
 	}
 
 	return fmt.Sprintf("request %s %s%s from %s (ASN %d) over %s [%s]",
@@ -502,6 +516,20 @@ func TestVerifC10(t *testing.T) {
 		return c.Q.Proto == "dot"
 	}), func(c c10Case) []vrt.Finding { return c10Run(r, c) })
 
+	// Part ctx: the request's context is dead at the access check (cancelled
+	// or past its deadline on entry, or during the device lookup).  A request
+	// that the global or its profile's access settings reject gets no
+	// response and reaches no later stage whatever the state of its context;
+	// unblocked requests with a dead context are not judged.
+	r.Bound("context_kinds", len(c10CtxKinds))
+	for _, kind := range c10CtxKinds {
+		vrt.Part(r, "ctx-"+kind, c10VariantGen(redConfs, clients, asns, func(c *c10Case) bool {
+			c.Q.Ctx = kind
+
+			return true
+		}), func(c c10Case) []vrt.Finding { return c10Run(r, c) })
+	}
+
 	// Part 4: the profile survives a restart.  The profile object is used by
 	// requests, written to the profile database's real file cache, loaded
 	// back, and must then give every request the same fate.
@@ -625,6 +653,18 @@ func c10FileCacheRequests(thorough bool) (qs []c10Query) {
 				for _, cl := range clients {
 					for _, asn := range c10ASNsQuick {
 						qs = append(qs, c10Query{Client: cl, ASN: asn, Name: name, QType: qt, Proto: proto})
+					}
+				}
+			}
+		}
+	}
+
+	for _, kind := range []string{"cancelled", "cancel-in-lookup"} {
+		for _, proto := range c10Protos {
+			for _, name := range []string{"clean.test.", "pblocked.test."} {
+				for _, cl := range clients[:3] {
+					for _, asn := range []uint32{0, 64500} {
+						qs = append(qs, c10Query{Client: cl, ASN: asn, Name: name, QType: dns.TypeA, Proto: proto, Ctx: kind})
 					}
 				}
 			}
